@@ -423,8 +423,8 @@ class Builder:
             head = self._emit('nop', None, frame)
             head.extra['loop_head'] = s
             sc = Scope('loop', s, frame, cont=head, breaks=[])
+            self.stack.append(sc)     # the test is re-evaluated per iteration
             t, f = self._cond(s.test, frame)
-            self.stack.append(sc)
             self.dangling = t
             self._body(s.body, frame)
             for a, l in self.dangling:
